@@ -60,7 +60,7 @@ def run(chk):
     chk.rule("C16.E4", "non-numeric values ([Tabulation], [Species], table-form data) give configuration errors", 8)
     chk.rule("C16.E5", "table-form option subsets: exactly {x,y} or {xy} accepted, every other subset a configuration error", 8)
     chk.rule("C16.E6", "every configparser error while reading or substituting is converted to a configuration error", 7)
-    chk.rule("C16.E7", "no denominator on a target's write path can vanish for a row count its validation accepts", 11)
+    chk.rule("C16.E7", "no denominator on a target's write path can vanish for a row count its validation accepts", 22)
     chk.rule("C16.E8", "every raise on the configuration path raises a ConfigurationException subclass", 40)
     chk.rule("C16.E9", "the console entry point reports ConfigurationException as 'configuration error - ...' and wires parser and options to its worker", 4)
     chk.rule("C16.E10", "values the reference manual lists as valid are accepted (targets, interpolation, modifiers, forms)", 4)
@@ -308,6 +308,22 @@ def denominators(chk, P):
                     v = ep.substitute(den, {symname: ep.const(k)})
                     if v.is_zero():
                         bad.append("%s line %s: denominator %r vanishes for %s = %d" % (label.split(":")[-1], line, den, symname, k))
+        # conversely no usable row count is refused: every count from 2 up at which no denominator of the writer vanishes (and,
+        # for the DL_POLY TABLE format, which is a multiple of four: C02) passes the validation
+        upto = 48 if chk.tier == "thorough" else 13
+        dens = [(den, symname) for den, line, label in I.divisions for symname in ("nr", "nrho") if den.depends_on(symname)]
+        refused = []
+        for k in range(2, upto + 1):
+            if k in accepted:
+                continue
+            if tc.name.startswith("DLPoly") and k % 4 != 0:
+                continue
+            if any(ep.substitute(den, {symname: ep.const(k)}).is_zero() for den, symname in dens):
+                continue
+            refused.append(k)
+        chk.ob("C16.E7", "target %s: every row count in 2..%d at which its writer's denominators are non-zero is accepted" % (target, upto),
+               not refused and ndiv > 0, site="%s TABULATION_FACTORIES[%r]" % (mod.relpath, target), found=refused or None,
+               expect="none refused", key="C16.E7|%s|converse" % target)
         chk.ob("C16.E7", "target %s (accepted row counts %s..): none of its %d count-dependent denominators vanishes" % (
             target, accepted[:3], ndiv), not bad and ndiv > 0, site="%s TABULATION_FACTORIES[%r]" % (mod.relpath, target),
                found="; ".join(sorted(set(bad))[:3]) if bad else ("no division found" if not ndiv else None),
